@@ -41,7 +41,7 @@ PRIMARY = {
 }
 
 OPS = [
-    (r"<=", "<"), (r"(?<![<\-=])<(?![<=])", "<="), (r">=", ">"), (r"(?<![>\-=])>(?![>=])", ">="),
+    (r" <= ", " < "), (r" < ", " <= "), (r" >= ", " > "), (r" > ", " >= "),
     (r"==", "!="), (r"!=", "=="), (r"&&", "||"), (r"\|\|", "&&"),
     (r"\+ 1\b", "+ 0"), (r"- 1\b", "- 0"), (r"\+ 1\b", "+ 2"), (r"- 1\b", "- 2"),
     (r"\btrue\b", "false"), (r"\bfalse\b", "true"),
@@ -68,7 +68,7 @@ def sh(cmd, cwd=None, timeout=None, env=None):
         p = subprocess.run(cmd, shell=True, cwd=cwd, capture_output=True, text=True, timeout=timeout, env=e)
         return p.returncode, p.stdout + p.stderr
     except subprocess.TimeoutExpired:
-        subprocess.run("pkill -9 -f /tmp/mut/repo/target", shell=True)
+        subprocess.run("pkill -9 -f /tmp/mut/repo/target; pkill -9 -f deps/aho_corasick-", shell=True)
         return 124, "timeout"
 
 
@@ -101,7 +101,7 @@ def sites(files):
                 if line.startswith("}"):
                     in_debug = 0
                 continue
-            if SKIP_LINE.search(line) or not line.strip():
+            if SKIP_LINE.search(line) or not line.strip() or '"' in line:
                 continue
             code = line.split("//")[0]
             for pat, rep in OPS:
@@ -170,13 +170,14 @@ def main():
         lines[i] = after
         open(path, "w").write("\n".join(lines))
         try:
-            rc, out = sh("cargo build --offline 2>&1 | tail -3", cwd=REPO, timeout=600)
-            rc2, out2 = sh("cargo test --offline --lib 2>&1 | grep -E '^test result|^error' | head -3", cwd=REPO, timeout=420)
+            rc2, out2 = sh("cargo test --offline --lib 2>&1 | grep -E '^test result|^error' | head -3", cwd=REPO, timeout=150)
             if "error" in out2 and "test result" not in out2:
                 stats["no-compile"] += 1
+                print("pre", json.dumps(stats), flush=True)
                 continue
             if "163 passed; 0 failed" not in out2:
                 stats["killed-by-tests"] += 1
+                print("pre", json.dumps(stats), flush=True)
                 continue
             reached += 1
             outcome, check, reason, notes = "survived", None, None, []
